@@ -4,27 +4,30 @@
 (*   order : the N-1 case list (sequence of distinct lines),                                                       *)
 (*   res   : res[c][e] = loading of line e when line c is out (values 1 or 3, limit 2; res[c][c] is not used),      *)
 (*   own   : what the evaluation function reports for the outaged line itself (0 = NaN, 1 = the number 0),          *)
-(*   fail  : a case whose evaluation raises (9 = none).                                                            *)
+(*   fail  : a case whose evaluation raises (99 = none);  fkind : what it raises ("rt" a foreign RuntimeError, "lfnc"  *)
+(*           LoadflowNotConverged) - the required result does not depend on the kind.                                   *)
+(*   oos   : a line that is out of service BEFORE the analysis (99 = none).  If it is named in the case list the case  *)
+(*           is skipped (contingency.py:102); it carries no results and stays out of service afterwards.              *)
 (*   n     : number of lines (3 for the exhaustive matrices, 10 for the pattern family with chunked dispatch).     *)
 (* The evaluation function is a stub of the harness that writes exactly these numbers into net.res_line, so the    *)
 (* real aggregation code runs on the model's matrices.  Bus voltages are the fixed function BusVm.                 *)
 EXTENDS Integers, Sequences, FiniteSets, TLC
 El(cfg) == 0..(cfg.n - 1)
 Limit == 2
-N0Val(e) == 1 + e                        \* loading in the N-0 case (percent)
+N0Val(e) == 1 + e                        \* loading in the N-0 case (percent); NaN for the line that is out of service
 BusVm(c, b) == 95 + ((2 * c) % 11) + b     \* vm (in percent of 1 pu) of bus b in case c (c = n: N-0)
 NaNv == -1                               \* "no value" in required results
 
 Range(s) == {s[k] : k \in 1..Len(s)}
-Valid(cfg, c, e) == c \in Range(cfg.order) /\ c # cfg.fail /\ c # e
+Valid(cfg, c, e) == c \in Range(cfg.order) /\ c # cfg.fail /\ c # e /\ c # cfg.oos /\ e # cfg.oos
 MaxS(S) == CHOOSE x \in S : \A y \in S : y <= x
 MinS(S) == CHOOSE x \in S : \A y \in S : x <= y
 Vals(cfg, e) == {cfg.res[c + 1][e + 1] : c \in {c \in El(cfg) : Valid(cfg, c, e)}}
 TrueMax(cfg, e) == IF Vals(cfg, e) = {} THEN NaNv ELSE MaxS(Vals(cfg, e))
 TrueMin(cfg, e) == IF Vals(cfg, e) = {} THEN NaNv ELSE MinS(Vals(cfg, e))
-Overloads(cfg, c) == c \in Range(cfg.order) /\ c # cfg.fail /\ \E e \in El(cfg) \ {c} : cfg.res[c + 1][e + 1] > Limit
+Overloads(cfg, c) == c \in Range(cfg.order) /\ c # cfg.fail /\ c # cfg.oos /\ \E e \in El(cfg) \ {c, cfg.oos} : cfg.res[c + 1][e + 1] > Limit
 CauseOK(cfg, e, cause) == TrueMax(cfg, e) = NaNv \/ (Valid(cfg, cause, e) /\ cfg.res[cause + 1][e + 1] = TrueMax(cfg, e))
-OkCases(cfg) == {c \in Range(cfg.order) : c # cfg.fail}
+OkCases(cfg) == {c \in Range(cfg.order) : c # cfg.fail /\ c # cfg.oos}
 BusMax(cfg, b) == IF OkCases(cfg) = {} THEN NaNv ELSE MaxS({BusVm(c, b) : c \in OkCases(cfg)})
 BusMin(cfg, b) == IF OkCases(cfg) = {} THEN NaNv ELSE MinS({BusVm(c, b) : c \in OkCases(cfg)})
 =============================================================================
